@@ -217,8 +217,8 @@ let () =
         let (toks, se) = parse_token_line line in
         events_line (parse_tokens toks se (arg 2 = "keep"))
     | "grammar" ->
-        let (a, b) = grammar_verdict (parse_event_line line) in
-        Printf.sprintf "%d %d" (if a then 1 else 0) (if b then 1 else 0)
+        let ((a, b), c) = grammar_verdict (parse_event_line line) in
+        Printf.sprintf "%d %d %d" (if a then 1 else 0) (if b then 1 else 0) (if c then 1 else 0)
     | "resolve" ->
         let s = decode_case line in
         String.concat "|" (List.map (fun (plain, tg) -> sdump (parse_from_cow_and_metadata s plain tg)) resolve_configs) ^ ";ok"
